@@ -83,6 +83,7 @@ def is_shared(kind, info):
 
 def run(ck, m):
     _run(ck, m)
+    matcher_chosen_per_pattern(ck, m)
     framing_rule(ck, m)
     # the permission list is matched against the key the guard is CALLED with: an effect on another key (a second key taken from the
     # same argument, a key derived from it) was never matched against any pattern — C08.a's key binding, repeated
@@ -902,3 +903,36 @@ def guard_needs_selection(m, kind):
             if inner and all(gb.dominates(some, x) for x in inner):
                 return True
     return False
+
+
+def matcher_chosen_per_pattern(ck, m):
+    """C09.l — see RULES"""
+    from props.C07 import natural_loops
+    P = m.prog
+    ck.rule('C09.l', 'each pattern of a permission statement is matched by the matcher of ITS shape: the function a pattern is matched with is the '
+                     'result of the selector called for that pattern — in the same closure / loop iteration as the match — never a matcher chosen once '
+                     'for the statement: `r *-public,team*` would match `team*` as a suffix and grant `payroll-team`')
+    fam = [b for b in P.user_bodies() if b.id.startswith('nundb::security::has_permission')]
+    n, bad = 0, []
+    for b in fam:
+        loops = natural_loops(b)
+        for bi, t in b.calls():
+            if not t['f'].get('ind') or len(t['args']) < 2:
+                continue
+            op = t['f'].get('op')
+            if op is None:
+                continue
+            n += 1
+            sel = [r for r in origins(b, op, stop_at_calls=True)]
+            sel_calls = [r[1] for r in sel if r[0] == 'call' and callee(b.term(r[1])).endswith('get_function_by_pattern')]
+            if not sel_calls or any(r[0] in ('capture', 'param') for r in sel):
+                bad.append('the matcher called at %s was not selected in the same closure (it comes from %s)' % (b.loc(bi), sorted({r[0] for r in sel})))
+                continue
+            inner = [body for h, body in loops if bi in body]
+            inner = min(inner, key=len) if inner else None
+            if inner is not None and not all(c in inner for c in sel_calls):
+                bad.append('the matcher called at %s was selected outside the loop over the patterns (%s)' % (b.loc(bi), [b.loc(c) for c in sel_calls]))
+    ck.ob('C09.l', 'has_permission', 'matcher-chosen-per-pattern', n > 0 and not bad,
+          'every pattern is matched by the matcher selected for it' if n > 0 and not bad else '; '.join(sorted(set(bad))[:3]) or 'no matcher call found',
+          '%s:%s' % (fam[0].file, fam[0].line) if fam else '')
+    ck.floor('C09.l', n, 1, 'matcher calls in the permission check')
